@@ -136,9 +136,9 @@ def mgmt_process(chk: Check, repo: Repo) -> None:
                 return [Outcome(None, None)]
             if n == "self._connections.get":
                 return [Outcome(None, conn if has_conn else None)]
-            if n == "conn.process":
+            if isinstance(c.func, ast.Attribute) and c.func.attr == "process" and am.ev(c.func.value, env, {}) == conn:  # the connection found for the source, by value
                 return [Outcome("CONNECTION_PROCESS", None)]
-            if n == "context.queue.put_nowait":
+            if n.endswith(".queue.put_nowait") and isinstance(c.func.value, ast.Attribute) and isinstance(am.ev(c.func.value.value, env, {}), Obj) and am.ev(c.func.value.value, env, {}).cls == "BroadcastContext":
                 return [Outcome("BROADCAST_QUEUE", None)]
             if n.startswith("logger."):
                 return [Outcome(None, None)]
@@ -183,10 +183,13 @@ def send_and_receive(chk: Check, repo: Repo) -> None:
     cfg = CFG(gen.node)
     heads = [n for n in cfg.nodes if n.kind == "join" and isinstance(n.ast, ast.While) and any(l in ("loop", "continue") for _, l in n.pred)]
     am = AbsMachine(cfg, exc, lambda c, e: None)
+    # the generator's counter local, found as the name it yields
+    ys = [n for n in ast.walk(gen.node) if isinstance(n, ast.Yield) and isinstance(n.value, ast.Name)]
+    cv = ys[0].value.id if len(ys) == 1 else "?"
     pre = Explorer(cfg, repo, am.step).run(cfg.entry, [heads[0].id], {"#trace_yields": True}) if heads else []
-    ok0 = len(pre) == 1 and pre[0].env.get("seq_num") == 0
-    it = Explorer(cfg, repo, am.step).run(heads[0].id, [heads[0].id], {"#trace_yields": True, "seq_num": SymInt("n", 0, 16)}) if heads else []
-    ok1 = len(it) == 1 and it[0].env.get("trace") == (f"YIELD({SymInt('n', 0, 16)!r})",) and it[0].env.get("seq_num") == SymInt("n", 1, 16)
+    ok0 = len(pre) == 1 and pre[0].env.get(cv) == 0
+    it = Explorer(cfg, repo, am.step).run(heads[0].id, [heads[0].id], {"#trace_yields": True, cv: SymInt("n", 0, 16)}) if heads else []
+    ok1 = len(it) == 1 and it[0].env.get("trace") == (f"YIELD({SymInt('n', 0, 16)!r})",) and it[0].env.get(cv) == SymInt("n", 1, 16)
     chk.ob("outgoing-number-generator", gen.site(), ok0 and ok1, f"generator starts at 0 ({ok0}) and each iteration yields n then stores n+1 mod 16 ({ok1})", key="seq-generator")
     # send_data
     sd = repo.func(M, "P2PConnection.send_data")
@@ -307,9 +310,12 @@ def send_and_receive(chk: Check, repo: Repo) -> None:
     src = ast.unparse(rq.node)
     cfgq = CFG(rq.node)
     sdn = [n for n in cfgq.nodes if n.ast is not None and n.kind == "stmt" and any(call_name(c) == "self.send_data" for c in calls(n.ast))]
-    rcn = [n for n in cfgq.nodes if n.ast is not None and n.kind == "stmt" and any(call_name(c) == "self._receive" and [ast.unparse(a) for a in c.args] == ["expected"] for c in calls(n.ast))]
+    from ..astx import inline_locals
+    pp = rq.node.args.args[1].arg
+    want_exp = f"{pp}.RESPONSE_TYPE if isinstance({pp}, APCIRequest) else None"
+    rcn = [n for n in cfgq.nodes if n.ast is not None and n.kind == "stmt" and any(call_name(c) == "self._receive" and [ast.unparse(inline_locals(rq.node, a)) for a in c.args] == [want_exp] for c in calls(n.ast))]
     mf = cfgq.must_facts()
-    ok = len(sdn) == 1 and len(rcn) == 1 and cfgq.dominates(sdn[0].id, rcn[0].id) and ("self._connected", True) in mf[sdn[0].id] and "expected = payload.RESPONSE_TYPE if isinstance(payload, APCIRequest) else None" in src
+    ok = len(sdn) == 1 and len(rcn) == 1 and cfgq.dominates(sdn[0].id, rcn[0].id) and ("self._connected", True) in mf[sdn[0].id]
     chk.ob("request-shape", rq.site(), ok, "request(): refuses when disconnected, sends, then receives with the response type declared by the request class", key="request-shape")
     ws = [w for w in attr_writes(repo, "_expected_sequence_number", include_mutators=False)]
     chk.ob("expected-number-writers", rq.site(), sorted(w.func.qualname for w in ws) == ["P2PConnection.__init__", "P2PConnection.process"], f"_expected_sequence_number writers: {[w.func.qualname for w in ws]}", key="expected-writers")
